@@ -3,6 +3,7 @@ import GluonModel.Share
 import GluonModel.Loader
 import GluonModel.LoadVerify
 import GluonModel.ModuleRec
+import GluonModel.JsonStr
 open GluonModel GluonModel.Share
 
 /-- sorts of the protocol: `d` GcPtr<DataStruct>, `a` GcPtr<ValueArray>, `f` Arc<[InternedStr]> -/
@@ -119,6 +120,11 @@ def handle : List Sexp → String
       let toks := (flat d).filter (fun t => match t with | .atom _ => false | _ => true)
       answerDe (toks.take k)
     | _, _ => "bad-request"
+  | [.atom "esc", .str t] => Sexp.quote (String.ofList (JsonStr.escape t.toList))
+  | [.atom "unesc", .str t] =>
+    match JsonStr.unescape t.toList with
+    | some r => "(ok " ++ Sexp.quote (String.ofList r) ++ ")"
+    | none => "err"
   | [.atom "operands", f] =>
     match parseVFn f with
     | some f => if LoadVerify.operandsOkDeep f then "accept" else "reject"
